@@ -374,6 +374,9 @@ func cmdC13(tier string, seed int64, out, statsOut, replay string) {
 		// an override block that spells a custom field with an empty value, and a key id with an empty value
 		"name: x\narch: amd64\nversion: 1.0.0\ndeb:\n  fields: {A: base, B: base}\noverrides:\n  deb:\n    deb:\n      fields: {B: \"\", C: over}\n",
 		"name: x\narch: amd64\nversion: 1.0.0\ndeb:\n  signature:\n    key_id: DEBBASEKEY\nrpm:\n  signature:\n    key_id: RPMBASEKEY\napk:\n  signature:\n    key_id: APKBASEKEY\noverrides:\n  deb:\n    deb:\n      signature:\n        key_id: \"\"\n  rpm:\n    rpm:\n      signature:\n        key_id: \"\"\n  apk:\n    apk:\n      signature:\n        key_id: \"\"\n",
+		// an override block that spells a list out as EMPTY: an empty value replaces nothing, neither that list nor any other
+		"name: x\narch: amd64\nversion: 1.0.0\ndepends: [base-dep]\nreplaces: [old]\nconflicts: [c1]\nprovides: [p1]\ncontents:\n  - {src: a, dst: /a}\ndeb:\n  breaks: [b1]\n  triggers:\n    interest: [t1]\noverrides:\n  deb:\n    depends: []\n  rpm:\n    conflicts: []\n    replaces: [newer]\n  apk:\n    provides: []\n    suggests: []\n  ipk:\n    contents: []\n    recommends: [r]\n  archlinux:\n    replaces: []\n    conflicts: []\n    depends: []\n",
+		"name: x\narch: amd64\nversion: 1.0.0\ndepends: [base-dep]\ndeb:\n  breaks: [b1]\n  predepends: [pd]\nipk:\n  tags: [t]\n  predepends: [ipd]\noverrides:\n  deb:\n    deb:\n      breaks: []\n    recommends: []\n  ipk:\n    ipk:\n      tags: []\n    depends: []\n",
 	} {
 		runC13Case(w, fmt.Sprintf("edge-%d", i), pkgDesc{YAML: d}, st, rng)
 	}
